@@ -276,6 +276,11 @@ def strip_comments(src):
         elif src.startswith("--", i):
             while i < n and src[i] != "\n":
                 i += 1
+        elif src[i] == "'" and i + 2 < n and (src[i + 2] == "'" or (src[i + 1] == "\\" and "'" in src[i + 2:i + 8])):
+            # character literal such as '"' or '\n': copy verbatim so that a quote inside is not a string start
+            j = src.index("'", i + 2 if src[i + 1] != "\\" else i + 3)
+            out.append(src[i:j + 1])
+            i = j + 1
         elif src[i] == '"':
             i += 1
             while i < n and src[i] != '"':
